@@ -484,8 +484,28 @@ func runC12(k *kernel.K) {
 	// holder and the groups, e.g. an exchange between entering the holder and reading it
 	k.AddSource(k.GateSource)
 	ly := k.LockYield()
-	martianhttp.VerifYieldHook, fifo.VerifYieldHook = ly, ly
-	defer func() { martianhttp.VerifYieldHook, fifo.VerifYieldHook = nil, nil }()
+	martianhttp.VerifYieldHook, fifo.VerifYieldHook, parse.VerifYieldHook = ly, ly, ly
+	defer func() { martianhttp.VerifYieldHook, fifo.VerifYieldHook, parse.VerifYieldHook = nil, nil, nil }()
+	// Sometimes the embedding program registers one more modifier type while the proxy is being
+	// configured (parse.Register is exported and takes the registry's lock): at a tape-chosen
+	// moment, on its own goroutine.
+	registered, registerDone := false, false
+	if w.Chance(1, 4) {
+		k.AddSource(func(add func(kernel.Action)) {
+			if !registered && !k.Draining {
+				add(kernel.Action{Key: "embedder registers a modifier type", W: 2, Class: kernel.Actor, Do: func() {
+					registered = true
+					k.Probe("register_while_configuring")
+					go func() {
+						parse.Register(fmt.Sprintf("verif.Late%d", k.StepN), func(b []byte) (*parse.Result, error) {
+							return nil, fmt.Errorf("not used")
+						})
+						registerDone = true
+					}()
+				}})
+			}
+		})
+	}
 
 	// Script: configurations (valid and invalid) and exchanges.
 	nextProbe := 0
@@ -568,6 +588,11 @@ func runC12(k *kernel.K) {
 		return
 	}
 	// ---- oracle ----
+	if registered && !registerDone {
+		k.Fail("C12.reject_whole", map[string]string{"kind": "no_answer", "with": "concurrent_register"}, "parse.Register called while configurations were being posted has not returned at quiescence; goroutines waiting for a mutex: %d", len(k.MutexBlocked()))
+		aw.cleanup()
+		return
+	}
 	afin := admin.P.Final()
 	var accepted []*c12Conf
 	for i, c := range confs {
